@@ -485,8 +485,9 @@ def build_plan(lines, tier):
                 for mode in ln['modes']:
                     payload[key]['items'].append(make_item(ln, ln['cls'], mode, p, p2, p, p2))
                     if n < (2 if tier == 'quick' else 6) and ' ' in (ln['pre'] + ln['mid'] + ln['suf']):
-                        # the same filter with its blanks spelled as line breaks
-                        for ws in ('\n', '\r\n'):
+                        # the same filter with its blanks spelled as line breaks / the other white space
+                        # characters a tokenizer may or may not take for a line end
+                        for ws in ('\n', '\r\n', '\r', '\t'):
                             it = make_item(ln, ln['cls'], mode, p, p2, p, p2)
                             it['ws'] = ws
                             payload[key]['items'].append(it)
